@@ -267,6 +267,12 @@ def _warm(case, spy, contests=None, assertion=None, audit=None, call=None):
     spy.calls.clear()
 
 
+def _flag(case, v):
+    """a boolean flag as the caller may hold it: a Python bool, a numpy bool (np.any(...), a comparison) or 0/1"""
+    ft = case.get("flag_type")
+    return np.bool_(v) if ft == "np" else (int(v) if ft == "int" else v)
+
+
 def observe(case):
     """run the real code under the spy; returns (result dict, recorded calls)"""
     op = case["op"]
@@ -276,7 +282,7 @@ def observe(case):
                 nm = NMG.make_nm(case["init"])
                 x = np.array([flt(v) for v in case["x"]], dtype=float)
                 kw = {} if case["reps"] is None and case.get("seed") is None else {"seed": case["seed"]}
-                n = nm.sample_size(x, alpha=flt(case["alpha"]), reps=case["reps"], prefix=case["prefix"],
+                n = nm.sample_size(x, alpha=flt(case["alpha"]), reps=case["reps"], prefix=_flag(case, case["prefix"]),
                                    quantile=flt(case["quantile"]), **kw)
                 res = {"st": "ok", "n": int(n)}
             elif op == "find":
@@ -284,7 +290,7 @@ def observe(case):
                 data = None if case["data"] is None else np.array([flt(v) for v in case["data"]], dtype=float)
                 _warm(case, spy, assertion=a, call=lambda r1, r2: a.find_sample_size(
                     data=None, prefix=False, rate_1=r1, rate_2=r2, reps=None, quantile=0.5, seed=case["seed"]))
-                n = a.find_sample_size(data=data, prefix=case["prefix"], rate_1=flt(case["rate_1"]),
+                n = a.find_sample_size(data=data, prefix=_flag(case, case["prefix"]), rate_1=flt(case["rate_1"]),
                                        rate_2=flt(case["rate_2"]), reps=case["reps"],
                                        quantile=flt(case["quantile"]), seed=case["seed"])
                 res = {"st": "ok", "n": int(n), "attr": int(a.sample_size)}
@@ -1223,13 +1229,19 @@ def with_warm(rng, case):
     return case
 
 
+def with_flag(rng, case):
+    if rng.chance(0.25):
+        case["flag_type"] = rng.choice(["np", "np", "int"])
+    return case
+
+
 def gen(rng, n, tier):
     for _ in range(n):
         r = rng.random()
         if r < 0.30:
-            yield gen_nm(rng, tier)
+            yield with_flag(rng, gen_nm(rng, tier))
         elif r < 0.62:
-            yield with_warm(rng, gen_find(rng, tier))
+            yield with_flag(rng, with_warm(rng, gen_find(rng, tier)))
         elif r < 0.72:
             yield gen_interleave(rng, tier)
         elif r < 0.82:
